@@ -44,6 +44,9 @@ KNOWN = [dict(id="C02-hash-collision", match="has attributes", case=_collision_c
 def cases_for(rng, tier):
     n = 1200 if tier == "quick" else 40000
     cases = [{"sb": rng.choice([0, 2, 3]), "ops": one_history(rng, rng.choice([3, 8, 15, 30, 60, 120, 300]))} for _ in range(n)]
+    # the same map through several live handles of one dataset in reopened sessions
+    cases += [{"sb": rng.choice([0, 2, 3]), "ops": histgen.gen_handles(rng, nsess=rng.choice([1, 2]), nops=rng.choice([12, 30]))}
+              for _ in range(200 if tier == "quick" else 6000)]
     # exhaustive short histories over 2 names x 3 values (set/delete), length <= 4 (quick) / 5 (thorough)
     import itertools
     vals = [("i32", "01000000"), ("str", "6162"), ("[]f64", "000000000000f03f0000000000000040")]
